@@ -120,6 +120,8 @@ func buildVocab() *Vocab {
 		mustLit(literal.Float64, 2.5000001), mustLit(literal.Float64, 2.50000005),
 		// empty values (indices 31, 32)
 		mustLit(literal.Text, ""), triple.NewPredicateObject(mustParsePred(`""@[]`)),
+		// integers next to each other beyond the 53 bits a float64 holds exactly (indices 33-35)
+		mustLit(literal.Int64, int64(math.MaxInt64-1)), mustLit(literal.Int64, int64(1<<53)), mustLit(literal.Int64, int64(1<<53+1)),
 	}
 	v.ObjsClean = 18
 	return v
@@ -168,11 +170,15 @@ func genUniverseX(r *Rand, n int, rich, collide, zones, extreme bool) []TSpec {
 		if zones && r.Bool() {
 			objs = append(objs, 28) // predicate-valued object in the other zone
 		}
-		switch r.Intn(4) {
+		switch r.Intn(6) {
 		case 0:
 			objs = append(objs, 21, 22)
 		case 1:
 			objs = append(objs, 23)
+		case 4:
+			objs = append(objs, 10, 29, 30) // floats closer to each other than 1e-6
+		case 5:
+			objs = append(objs, []int{21, 33, 34, 35}[r.Intn(4)], 34, 35) // neighbours beyond 2^53
 		case 2:
 			objs = append(objs, []int{19, 26, 27}[r.Intn(3)]) // at most one member of a colliding group
 		}
